@@ -58,7 +58,7 @@ def forms_x86():
     for v in "xyz":
         regs += [reg_x86(f"{v}mm{i}") for i in (0, 1, 15, 16, 31)]
     imms = [imm_x86("0", 0), imm_x86("1", 1), imm_x86("-1", -1), imm_x86("255", 255), imm_x86("-128", -128), imm_x86("0x0", 0), imm_x86("0xff", 255), imm_x86("-0x10", -16),
-            imm_x86("9223372036854775807", 2**63 - 1), imm_x86("0xffffffffffffffff", 2**64 - 1), imm_x86("0xABCdef", 0xABCDEF)]
+            imm_x86("9223372036854775807", 2**63 - 1), imm_x86("0xffffffffffffffff", 2**64 - 1), imm_x86("0xABCdef", 0xABCDEF), imm_x86("0XFF", 255)]
     mems = []
     disps = [None, ("16", 16), ("-8", -8), ("0x40", 64), ("-0x10", -16), ("0", 0)]
     for d in disps:
@@ -142,7 +142,9 @@ def forms_a64():
     regs += [reg_a64("v", 4, "d", None, 1), reg_a64("v", 9, "s", None, 3), reg_a64("z", 3, "s"), reg_a64("z", 30, "d"), reg_a64("p", 1, pred="m"), reg_a64("p", 2, pred="z"),
              reg_a64("p", 3, "b"), reg_a64("p", 0)]
     imms = [imm_a64("#5", 5), imm_a64("5", 5), imm_a64("#-3", -3), imm_a64("#0x10", 16), imm_a64("#0", 0), imm_a64("#4095", 4095), imm_a64("#0xff", 255), imm_a64("#-0x8", -8),
-            imm_a64("#1.5", None, "double"), imm_a64("#2.0e+0", None, "double"), imm_a64("#1.0f", None, "float")]
+            imm_a64("#1.5", None, "double"), imm_a64("#2.0e+0", None, "double"), imm_a64("#1.0f", None, "float"),
+            # exponent without sign, upper-case exponent letter and upper-case hexadecimal prefix are legal GNU as spellings
+            imm_a64("#1.0e3", None, "double"), imm_a64("#2.5E-1", None, "double"), imm_a64("#0XFF", 255), imm_a64("#0X1f", 31)]
     mems = []
     for base in (("x", "1"), ("x", "29"), ("x", "sp")):
         mems.append(mem_a64(base))
@@ -168,6 +170,8 @@ LAYOUTS = [
     lambda m, ops, c: m + " " + ", ".join(ops) + "  " + c + " some trailing comment 123",
     lambda m, ops, c: "\t\t" + m + " " + ",\t".join(ops) + "\t" + c + "x",
     lambda m, ops, c: " " + m + "\t" + ", ".join(ops) + " ",
+    # comments are free text: characters outside ASCII (names, units, paths in compiler annotations) must not matter
+    lambda m, ops, c: m + " " + ", ".join(ops) + " " + c + " caf\u00e9 \u00b5s \u2192 x",
 ]
 CM = "#" if ISA == "x86" else "//"
 
@@ -332,7 +336,7 @@ def main():
                 check_line(mn[2] if ISA == "x86" else "ldr", [a, b], lay, "pair")
     # ---------------------------------------------------------------- files: numbering, verbatim text, classification
     inst = ["addq %rax, %rbx", "vmovapd (%r15,%rax), %ymm0", "jne .L10"] if ISA == "x86" else ["add x1, x2, x3", "ldr q0, [x1, x2]", "b.ne .L10"]
-    other = {"comment": [CM + " only a comment", CM], "label": [".L10:", "main:", ".LBB0_1: " + CM + " with comment"], "directive": [".p2align 4", ".byte 100,103,144", ".text"],
+    other = {"comment": [CM + " only a comment", CM, CM + " gr\u00f6\u00dfe \u00b5s"], "label": [".L10:", "main:", ".LBB0_1: " + CM + " with comment"], "directive": [".p2align 4", ".byte 100,103,144", ".text"],
              "blank": ["", "   ", "\t"]}
     for fi in range(60 if A.tier != "thorough" else 600):
         lines, kinds = [], []
